@@ -12,7 +12,8 @@ Record case05 := mk05 {
   c_mi : option N;                 (* max_imbalance as f64 bits *)
   c_trace : list N;                (* encoded access events, global order *)
   c_impl : impl_res;               (* final part ids *)
-  c_md : list Z                    (* Metadata: gain, passes, attempts, moves, races, locked, no_gain, bad_balance, per_thread *)
+  c_md : list Z;                   (* Metadata: gain, passes, attempts, moves, races, locked, no_gain, bad_balance, per_thread *)
+  c_wk : N                         (* 0: i64 vertex weights = c_vw; 1: f64 vertex weights (c_vw times a fraction) *)
 }.
 
 Definition eval05 (c : case05) : verdict :=
@@ -27,8 +28,19 @@ Definition eval05 (c : case05) : verdict :=
     && graph_okb g && forallb (fun w => 0 <=? w) (c_vw c) in
   let tr := decode_trace (c_trace c) in
   let md i := nth i (c_md c) (-1) in
+  let f64w := (c_wk c =? 1)%N in
   let prop :=
-    if in_contract then
+    if in_contract && f64w then
+      (* f64 vertex weights: the machine (integer weights) is not run; the weight-independent
+         clauses are checked on the implementation's output and trace *)
+      match tr, c_impl c with
+      | Some evs, IOk p =>
+          let o := mkOut (map N.to_nat p) (md 0%nat) (md 3%nat) in
+          check_valid n k (o_part o) && check_accounting g (c_p0 c) o && check_moves (c_p0 c) o
+          && trace_mutex g (repeat TIdle tc) evs
+      | _, _ => false
+      end
+    else if in_contract then
       match cap, tr, c_impl c with
       | Some cp, Some evs, IOk p =>
           check_C05 g (c_vw c) (c_p0 c) cp tc evs (mkOut (map N.to_nat p) (md 0%nat) (md 3%nat))
@@ -40,6 +52,7 @@ Definition eval05 (c : case05) : verdict :=
      ends (outer loop left) in the implementation's final partition and Metadata.  The machine runs
      with [headroom_checked]: the f64 share of arc_swap, rejected where it is not the exact quotient *)
   let corr :=
+    if f64w then true else
     match c_impl c, cap, tr with
     | IOk p, Some cp, Some evs =>
       let cf := config_of headroom_checked g (c_vw c) (c_p0 c) (c_threads c) cp in
@@ -59,7 +72,8 @@ Definition eval05 (c : case05) : verdict :=
     end in
   let cls :=
     match c_impl c with
-    | IOk _ => if negb in_contract then 4%N else if 0 <? md 3%nat then 1%N else 0%N
+    | IOk _ => if negb in_contract then 4%N else if f64w then (if 0 <? md 3%nat then 7%N else 6%N)
+               else if 0 <? md 3%nat then 1%N else 0%N
     | IPanic => 2%N | IHang => 3%N | IErr _ _ _ => 5%N
     end in
   {| corr_ok := corr; prop_ok := prop; cls := cls |}.
